@@ -127,6 +127,16 @@ def _gen_variation(rng, shape, layout, force_ruleless=False):
         if rel.startswith('data/') and not shape.get('dirs'):
             continue
         extra[rel] = {'text': txt, 'mode': rng.choice(MODES)}
+    if shape.get('csv') == 'withRules' and shape.get('dirs') and rng.random() < 0.35:
+        # generations of backups the user already has: the numbered names earlier migrations left, with gaps, past nine, for both kinds of
+        # rule file - each of them is a file of the user's: a migration sets its backup aside under a name that is FREE
+        fam = rng.choice([[1], [1, 2, 3], [9, 10], [2, 9, 10, 11], [1, 2, 3, 4, 5, 6, 7, 8, 9, 10], [10], [3, 7]])
+        for base in rng.choice([['merchant_categories.csv'], ['merchants.rules'], ['merchant_categories.csv', 'merchants.rules']]):
+            for k in fam:
+                extra[f'config/{base}.bak.{k}'] = {'text': f'# generation {k} of {base} {rng.randrange(16 ** 4):04x}\n', 'mode': None}
+            if rng.random() < 0.6 and not (base == 'merchant_categories.csv' and shape.get('csvBak')):
+                extra[f'config/{base}.bak'] = {'text': f'# first backup of {base} {rng.randrange(16 ** 4):04x}\n', 'mode': None}
+        v['bak_family'] = True
     if extra:
         v['extra_files'] = extra
     if layout == 'new' and rng.random() < 0.4:
@@ -345,6 +355,11 @@ def run(ctx):
                 OUT = out_paths(r.get('prefix', ''))
                 mc = [p for p in tree_changes(prev, mt) if p not in OUT]
                 rc = [p for p in st['changed'] if p not in OUT]
+                if c.get('bak_family'):
+                    # the model does not know the user's numbered backups: which FREE number a new backup takes is compared up to the number
+                    # (that no existing generation is touched is the oracle's business, on the real tree)
+                    mc = sorted({re.sub(r'\.bak(\.\d+)?$', '.bak*', p) for p in mc})
+                    rc = sorted({re.sub(r'\.bak(\.\d+)?$', '.bak*', p) for p in rc})
                 report_m = any(p in OUT for p in tree_changes(prev, mt)) or (c['programs'][i] in ('up', 'upMigrateHtml') and
                                                                              any(p.endswith('spending_summary.html') for p in mt))
                 report_r = any(p in OUT for p in st['changed'])
